@@ -231,7 +231,7 @@ var errPredicates = []string{"rueidis.(*singleClient).isRetryable", "rueidis.isR
 
 // justify classifies the conditions of one re-send path. src is the earlier send (may be nil for
 // work-list appends), payloadWaived tells that the command flag conjunct is not required.
-func justify(j justCtx, conds []Guard, src ssa.Value, payloadWaived bool, strict bool) (string, string) {
+func justify(j justCtx, conds []Guard, src ssa.Value, target ssa.CallInstruction, payloadWaived bool, strict bool) (string, string) {
 	gs := ExpandGuards(conds)
 	has := func(pred func(Guard) bool) bool {
 		for _, g := range gs {
@@ -290,7 +290,11 @@ func justify(j justCtx, conds []Guard, src ssa.Value, payloadWaived bool, strict
 			return false
 		}
 		n := CalleeName(c)
-		return n == "rueidis.allRetryable" || strings.HasSuffix(n, "cmds.(*Completed).IsRetryable") || strings.HasSuffix(n, "cmds.(Completed).IsRetryable")
+		if !(n == "rueidis.allRetryable" || strings.HasSuffix(n, "cmds.(*Completed).IsRetryable") || strings.HasSuffix(n, "cmds.(Completed).IsRetryable")) {
+			return false
+		}
+		// the flag must be established for everything that is re-sent, not for a part of it
+		return target == nil || coversOperand(CallArgs(c)[0], target)
 	})
 	errOK := has(func(g Guard) bool {
 		if _, _, ok := GuardCall(g, errPredicates...); ok && g.Pol {
@@ -352,6 +356,60 @@ func justify(j justCtx, conds []Guard, src ssa.Value, payloadWaived bool, strict
 		return "J3", ""
 	}
 	return "", "path is neither a lifetime-expiry resend, nor a redirect, nor a full retry; missing: " + strings.Join(miss, ", ")
+}
+
+// coversOperand: the value tested by the command-flag predicate denotes the whole command operand
+// of the re-send (same provenance, not a sub-slice of it).
+func coversOperand(tested ssa.Value, send ssa.CallInstruction) bool {
+	if hasSubSlice(tested) {
+		return false
+	}
+	tr := cmdValueRoots(tested)
+	for _, a := range send.Common().Args {
+		if isCmdType(a.Type()) {
+			ar := cmdValueRoots(a)
+			for k := range ar {
+				if !tr[k] {
+					return false
+				}
+			}
+		}
+	}
+	return true
+}
+
+func hasSubSlice(v ssa.Value) bool {
+	found := false
+	seen := map[ssa.Value]bool{}
+	var rec func(v ssa.Value)
+	rec = func(v ssa.Value) {
+		if v == nil || seen[v] || found {
+			return
+		}
+		seen[v] = true
+		switch x := v.(type) {
+		case *ssa.Slice:
+			if x.Low != nil || x.High != nil {
+				if _, isAlloc := x.X.(*ssa.Alloc); !isAlloc { // varargs backing array [:] is whole
+					found = true
+					return
+				}
+			}
+			rec(x.X)
+		case *ssa.Phi:
+			for _, e := range x.Edges {
+				rec(e)
+			}
+		case *ssa.UnOp:
+			rec(x.X)
+		case *ssa.ChangeType:
+			rec(x.X)
+		case *ssa.Convert:
+			rec(x.X)
+		}
+	}
+	rec(v)
+	return found
 }
 
 // armsJustified: the lifetime-recovery idiom. The re-sent operand is a phi whose arms are the
@@ -483,7 +541,7 @@ func resendRules(r *Report, rule string, strict bool) {
 				if armsJustified(at.Call()) && lenPositive(conds, at.Call()) {
 					tag = "J1v"
 				} else {
-					tag, why = justify(j, conds, s.Instr.(ssa.Value), cacheOrSubscribe(kind), strict)
+					tag, why = justify(j, conds, s.Instr.(ssa.Value), at.Call(), cacheOrSubscribe(kind), strict)
 				}
 				counts[tag]++
 				desc := fmt.Sprintf("resend:%s->%s", CalleeName(s.Call()), CalleeName(at.Call()))
@@ -544,7 +602,7 @@ func resendRules(r *Report, rule string, strict bool) {
 		}, 200000, func(conds []Guard, at Site) {
 			n++
 			nPaths++
-			tag, why := justify(j, conds, nil, waived, strict)
+			tag, why := justify(j, conds, nil, nil, waived, strict)
 			if tag == "J1" {
 				tag, why = "", "errConnExpired comparison does not justify queueing for the next round"
 			}
@@ -600,40 +658,134 @@ func runC28(r *Report) {
 }
 
 // markerRule (R03c): the latched connection error (which may be the transparent-resend marker
-// errConnExpired) must not be delivered to queue entries obtained from NextResultCh: those
-// commands were handed to the writer and may have been executed.
+// errConnExpired, on which every client Do loop re-sends unconditionally) must not be delivered as
+// the result of a command that has been handed to the writer. Delivery points are sends on result
+// channels, stores into result slices and returned results of the pipe's request methods; write
+// events are writeCmd/flushCmd/Flush, the synchronous helpers and NextResultCh (entries that come
+// from there were dequeued by the writer). Stream methods are exempt: no client retries them.
 func markerRule(r *Report) {
 	p := r.P
+	isWrite := func(in ssa.Instruction) bool {
+		_, ok := CallTo(in, "rueidis.writeCmd", "rueidis.flushCmd", "bufio.(*Writer).Flush", "iface:rueidis.queue.NextResultCh", "rueidis.(*pipe).syncDo", "rueidis.(*pipe).syncDoMulti")
+		return ok
+	}
+	isLatched := func(v ssa.Value) bool {
+		return DependsOn(v, func(x ssa.Value) bool {
+			c, ok := x.(*ssa.Call)
+			return ok && CalleeName(c) == "rueidis.(*pipe).Error"
+		})
+	}
 	n := 0
 	for _, fn := range p.ModuleFuncs() {
 		top := TopFunc(fn)
-		if len(CallSitesDeep(top, "iface:rueidis.queue.NextResultCh")) == 0 {
+		tn := FuncName(top)
+		if !strings.HasPrefix(tn, "rueidis.(*pipe).") || strings.HasSuffix(tn, "Stream") {
 			continue
 		}
-		for _, s := range Sites(fn, func(in ssa.Instruction) bool { _, ok := in.(*ssa.Send); return ok }) {
-			snd := s.Instr.(*ssa.Send)
-			if !strings.Contains(shortType(snd.Chan.Type()), "RedisResult") {
-				continue
+		var writes []Site
+		for _, f := range WithAnons(top) {
+			writes = append(writes, Sites(f, isWrite)...)
+		}
+		type point struct {
+			at   Site
+			kind string
+		}
+		var pts []point
+		var addVal func(v ssa.Value, at Site, kind string)
+		addVal = func(v ssa.Value, at Site, kind string) {
+			if ph, ok := v.(*ssa.Phi); ok {
+				for k, e := range ph.Edges {
+					if e == v {
+						continue
+					}
+					pred := ph.Block().Preds[k]
+					if isLatched(e) {
+						if _, isphi := e.(*ssa.Phi); isphi {
+							addVal(e, Site{at.Fn, pred, len(pred.Instrs) - 1, pred.Instrs[len(pred.Instrs)-1]}, kind)
+						} else {
+							pts = append(pts, point{Site{at.Fn, pred, len(pred.Instrs) - 1, pred.Instrs[len(pred.Instrs)-1]}, kind})
+						}
+					}
+				}
+				return
 			}
-			n++
-			latched := DependsOn(snd.X, func(v ssa.Value) bool {
-				c, ok := v.(*ssa.Call)
-				return ok && CalleeName(c) == "rueidis.(*pipe).Error"
-			})
-			excluded := false
-			if latched {
-				// accepted only if the marker is excluded by a dominating comparison
-				for _, g := range DomGuards(s.Block) {
-					if _, eq, ok := IsErrCmp(g, "rueidis.errConnExpired"); ok && !eq {
-						excluded = true
+			if u, ok := v.(*ssa.UnOp); ok && u.Op == token.MUL {
+				if al, ok := u.X.(*ssa.Alloc); ok {
+					// a local variable (e.g. a named result captured by a deferred closure): the
+					// delivery points are the assignments of a latched value to it
+					for _, ref := range *al.Referrers() {
+						if st, ok := ref.(*ssa.Store); ok && st.Addr == al && isLatched(st.Val) {
+							if ld, isld := st.Val.(*ssa.UnOp); isld && ld.X == ssa.Value(al) {
+								continue // `return resp` re-stores the named result into itself
+							}
+							dup := false
+							for _, q := range pts {
+								if q.at.Instr == ssa.Instruction(st) {
+									dup = true
+								}
+							}
+							if !dup {
+								pts = append(pts, point{SiteOf(st), kind})
+							}
+						}
+					}
+					return
+				}
+			}
+			if isLatched(v) {
+				pts = append(pts, point{at, kind})
+			}
+		}
+		for _, b := range fn.Blocks {
+			for i, in := range b.Instrs {
+				s := Site{fn, b, i, in}
+				switch x := in.(type) {
+				case *ssa.Send:
+					if strings.Contains(shortType(x.Chan.Type()), "RedisResult") {
+						addVal(x.X, s, "send")
+					}
+				case *ssa.Store:
+					if ia, ok := x.Addr.(*ssa.IndexAddr); ok && strings.Contains(shortType(ia.X.Type()), "RedisResult") {
+						addVal(x.Val, s, "store")
+					}
+				case *ssa.Return:
+					for _, res := range x.Results {
+						if strings.Contains(shortType(res.Type()), "RedisResult") || strings.Contains(shortType(res.Type()), "redisresults") {
+							addVal(res, s, "return")
+						}
 					}
 				}
 			}
-			r.ObSite("R03c", s, "deliver-to-written-entry", !latched || excluded,
-				"the connection's latched error (possibly errConnExpired, which every client Do loop re-sends unconditionally) is delivered to a queue entry that was already handed to the writer")
+		}
+		for _, pt := range pts {
+			n++
+			written := false
+			var wpos string
+			for _, w := range writes {
+				if w.Fn != pt.at.Fn {
+					written, wpos = true, p.Pos(InstrPos(w.Instr))
+					break
+				}
+				if w.Block == pt.at.Block && w.Idx < pt.at.Idx {
+					written, wpos = true, p.Pos(InstrPos(w.Instr))
+					break
+				}
+				if ok, _ := Reaches(w, func(x Site) bool { return x.Block == pt.at.Block && x.Idx == pt.at.Idx }, nil); ok {
+					written, wpos = true, p.Pos(InstrPos(w.Instr))
+					break
+				}
+			}
+			excluded := false
+			for _, g := range DomGuards(pt.at.Block) {
+				if _, eq, ok := IsErrCmp(g, "rueidis.errConnExpired"); ok && !eq {
+					excluded = true
+				}
+			}
+			r.ObSite("R03c", pt.at, "deliver-latched-error:"+pt.kind, !written || excluded,
+				"the connection's latched error (possibly errConnExpired, which every client Do loop re-sends unconditionally) is delivered as the result of a command that was already handed to the writer (write event at "+wpos+")")
 		}
 	}
-	r.Anchor("R03c", "result deliveries in functions consuming NextResultCh", n >= 2)
+	r.Anchor("R03c", "deliveries of the latched pipe error", n >= 3)
 }
 
 // backoffRule (R28d): decision table of (*retryer).WaitOrSkipRetry by guards.
